@@ -6,6 +6,9 @@ CONSTANTS AB_S, AB_N, U_S, U_N, WS_S
 UChars   == {CA, <<98>>, CNT, CSQRT}
 PatIn    == (SeqsUpTo({97, 98}, AB_S) \X SeqsUpTo({97, 98}, AB_N))
               \cup (StrsUpTo(UChars, U_S) \X StrsUpTo(UChars, U_N))
+              \* characters that share bytes at different positions; characters at the ends of each encoded width
+              \cup (StrsUpTo({CSQRT, CSQRT2, CCRAB, CCRAB2}, 3) \X StrsUpTo({CSQRT, CSQRT2, CCRAB, CCRAB2}, 2))
+              \cup (StrsUpTo(EdgeChars, 2) \X StrsUpTo(EdgeChars, 1))
 \* every ASCII byte at each end / inside, plus all short strings over whitespace-ish bytes
 WsAlpha  == {32, 9, 12, 11, 97}
 WsStrs   == SeqsUpTo(WsAlpha, WS_S)
@@ -20,7 +23,9 @@ WsStrs   == SeqsUpTo(WsAlpha, WS_S)
 MCInputs == PatIn \cup {<<w, <<>>>> : w \in WsStrs}
 
 Vec(o, ss, nn) == [m |-> "StripTrim", op |-> o, s |-> ss, n |-> nn, exp |-> Ref(o, ss, nn)]
-Vectors == {Vec(o, in[1], in[2]) : o \in PatOps, in \in PatIn}
-             \cup {Vec(o, w, <<>>) : o \in SpaceOps, w \in WsStrs \cup {in[1] : in \in PatIn}}
-Emit == ndJsonSerialize(IOEnv.OUT, SetToSeq({v \in Vectors : Specified(v.op, v.s, v.n)}))
+\* keys are homogeneous tuples (cheap to normalise); the records are built as a sequence
+Keys == {<<o, in[1], in[2]>> : o \in PatOps, in \in PatIn}
+          \cup {<<o, w, <<>>>> : o \in SpaceOps, w \in WsStrs \cup {in[1] : in \in PatIn}}
+Emit == LET ks == SetToSeq({kk \in Keys : Specified(kk[1], kk[2], kk[3])}) IN
+        ndJsonSerialize(IOEnv.OUT, [q \in 1..Len(ks) |-> Vec(ks[q][1], ks[q][2], ks[q][3])])
 =============================================================================
